@@ -50,6 +50,8 @@ if __name__ == '__main__':
     from e2 import run_e2
     ap = argparse.ArgumentParser(); ap.add_argument('--tier', default=os.environ.get('VERIF_TIER', 'quick')); ap.add_argument('--only')
     a = ap.parse_args()
+    if getattr(a, 'only', None) or getattr(a, 'caps', None):
+        os.environ['VERIF_PARTIAL'] = '1'
     rule = ('one obligation = (type, sign, digit count, variant): the solver decides exact text/length/footprint/round-trip for every value of the decade and every group character '
             '(E1: CBMC on 8/16/32-bit types; E2-int: irsym with the bit-vector queries decided over the integers for the 64-bit types and the std::string variants)')
     rep = Report('C13', a.tier)
